@@ -69,7 +69,7 @@ PROPS = {
         ]),
     'C14': dict(
         witness=[dict(append_to='tonic/src/status.rs', module='replay/status_witness.rs', crate='tonic', filter='verif_witness_status', features=['--features', 'gzip,deflate,zstd'])],
-        units=['reconnect', 'errmap', 'clientglue'], level='proof',
+        units=['reconnect', 'errmap', 'clientglue', 'tls'], level='proof',
         not_covered=[
             'Connection::{connect, lazy}, Reconnect::new and Channel::{new, connect} ARE under contract (connect builds an eager channel, lazy a lazy one; a fresh Reconnect is idle, never connected, lazy exactly if asked; Channel::connect only ever yields a channel over an eager connection that was driven to readiness, Channel::new a lazy one - tower Buffer::pair is a handle plus a worker on the service, A-tower-20; that the worker is actually spawned is not stated, nor Channel::{poll_ready, call} and the balance constructors); Connection::new itself (hyper client settings, the tower stack with GrpcTimeout / AddOrigin / UserAgent around Reconnect) is not - a generic tower Layer stack over closures overflows trait resolution in this Verus - nor are the tower Buffer worker in front of it and hyper connection-death detection (poll_ready of the connected service reporting an error is taken as given)',
             'ConnectError -> UNAVAILABLE is under contract (unit errmap, same `dyn Error` model as for C09: A-std-error-01); that the connector wraps its failures in ConnectError (Connector::call: nested async blocks) is not; on the client the mapping is linked to the call dispatcher (unit clientglue, lemma_transport_error_is_what_it_means: a ConnectError in the cause chain of the transport error makes the call fail with UNAVAILABLE)',
